@@ -1,0 +1,64 @@
+// SPDX-FileCopyrightText: 2026 The Pion community <https://pion.ly>
+// SPDX-License-Identifier: MIT
+
+//go:build verif
+
+package webrtc
+
+// Contracts for C25, second sentence (a candidate whose ufrag extension names no ufrag of
+// the applied remote description is dropped without error). Comments only.
+
+// Assumed contracts on pion/sdp and pion/ice: attribute lookup and the candidate's
+// extension lookup are functions of the object and the key and write nothing of this package.
+//@ func (*sdp.SessionDescription).Attribute
+//@ trusted
+//@ props C25
+//@ ensures ret0 == ufstr("sattr", s, key) && ret1 == ufbool("sattrok", s, key)
+//@ modifies nothing
+//@ func (*sdp.MediaDescription).Attribute
+//@ trusted
+//@ props C25
+//@ ensures ret0 == ufstr("mattr", d, key) && ret1 == ufbool("mattrok", d, key)
+//@ modifies nothing
+//@ func ice.UnmarshalCandidate
+//@ trusted
+//@ props C25
+//@ ensures (err == nil) == (ret0 != nil)
+//@ modifies nothing
+//@ func (ice.Candidate).GetExtension
+//@ trusted
+//@ props C25
+//@ ensures ret0.Value == ufstr("extval", recv) && ret1 == ufbool("extok", recv)
+//@ modifies nothing
+//@ func (logging.LeveledLogger).Errorf
+//@ trusted
+//@ modifies nothing
+//@ func (logging.LeveledLogger).Warnf
+//@ trusted
+//@ modifies nothing
+
+//@ func (*PeerConnection).RemoteDescription
+//@ props C25
+//@ requires pc != nil
+//@ ensures result == ite(pc.pendingRemoteDescription != nil, pc.pendingRemoteDescription, pc.currentRemoteDescription)
+//@ modifies nothing
+
+// A true result means: the session-level ice-ufrag attribute, or that of one of the media
+// sections, equals the ufrag (the direction the dropping rule needs).
+//@ func (*PeerConnection).descriptionContainsUfrag
+//@ props C25
+//@ requires sdp != nil
+//@ requires forall k int :: 0 <= k && k < len(sdp.MediaDescriptions) ==> sdp.MediaDescriptions[k] != nil
+//@ ensures result ==> ((ufbool("sattrok", sdp, "ice-ufrag") && ufstr("sattr", sdp, "ice-ufrag") == matchUfrag) || (exists k int :: 0 <= k && k < len(sdp.MediaDescriptions) && ufbool("mattrok", sdp.MediaDescriptions[k], "ice-ufrag") && ufstr("mattr", sdp.MediaDescriptions[k], "ice-ufrag") == matchUfrag))
+//@ modifies nothing
+//@ loop 0 invariant rangeindex < len(sdp.MediaDescriptions)
+
+// AddICECandidate: a parsed candidate that carries a ufrag extension reaches the ICE
+// transport only if the applied remote description contains that ufrag; otherwise the call
+// returns nil and hands nothing on.
+//@ func (*PeerConnection).AddICECandidate
+//@ props C25
+//@ nosafety
+//@ requires pcValid(pc)
+//@ atcall (*ICETransport).AddRemoteCandidate assert callarg1 != nil && ufbool("extok", cand) ==> ((ufbool("sattrok", remoteDesc.parsed, "ice-ufrag") && ufstr("sattr", remoteDesc.parsed, "ice-ufrag") == ufstr("extval", cand)) || (exists k int :: 0 <= k && k < len(remoteDesc.parsed.MediaDescriptions) && ufbool("mattrok", remoteDesc.parsed.MediaDescriptions[k], "ice-ufrag") && ufstr("mattr", remoteDesc.parsed.MediaDescriptions[k], "ice-ufrag") == ufstr("extval", cand)))
+//@ atreturn assert cand != nil && ufbool("extok", cand) && !old((ufbool("sattrok", remoteDesc.parsed, "ice-ufrag") && ufstr("sattr", remoteDesc.parsed, "ice-ufrag") == ufstr("extval", cand)) || (exists k int :: 0 <= k && k < len(remoteDesc.parsed.MediaDescriptions) && ufbool("mattrok", remoteDesc.parsed.MediaDescriptions[k], "ice-ufrag") && ufstr("mattr", remoteDesc.parsed.MediaDescriptions[k], "ice-ufrag") == ufstr("extval", cand))) ==> err == nil && ghost(remoteCands) == old(ghost(remoteCands))
